@@ -67,28 +67,28 @@ PROPS.update({
         level_text="Redraw integrity (screen = printed lines ++ current frame, no residue, cursor parked for following output) is proved in Lean for every history of draw "
                    "requests on every terminal width; the model's screen and cursor equal the vt100-emulated screen of the real crate at every flush of generated histories.",
         level_note=COMMON_NOTE + "Glyphs of width <= 1 in the theorems; move_cursor=false; the vt100 emulator stands for the terminal.",
-        claimed=False),
+        ),
     "C02": dict(
         streams=[dict(cmd="C02")],
         technique="Lean 4 refinement proof (slot bookkeeping refines the documented order; invariant over every MultiProgress operation history) + differential correspondence",
         level_text="The ordering/free-set bookkeeping of MultiState is proved to refine the documented list-of-bars order for every operation history, with the slot partition "
                    "kept by every operation; screens of the real MultiProgress equal the model's at every flush and are judged by an order/once-only oracle.",
         level_note=COMMON_NOTE + "Concurrency: draws are serialised by the multi write lock (lock-trace correspondence of C08).",
-        claimed=False),
+        ),
     "C03": dict(
         streams=[dict(cmd="C03"), dict(cmd="C03b")],
         technique="Lean 4 proof (a redraw with erase count n leaves every row above the last n in place) + differential correspondence + log-preservation oracle",
         level_text="Rows above the managed region are proved untouched by any redraw; log preservation over MultiProgress histories is decided by the oracle on the real "
                    "screen with the model run in lock-step (top and bottom alignment, rate-limited targets).",
         level_note=COMMON_NOTE,
-        claimed=False),
+        ),
     "C04": dict(
         streams=[dict(cmd="C04")],
         technique="Lean 4 theorems (finish/drop emit exactly the forced draw of the final state, for every limiter state) + differential correspondence",
         level_text="For every bar state, limiter state and finish kind the finishing call is proved to paint exactly the final frame without consulting the limiter; drop is "
                    "proved equal to finish_using_style or a no-op; final frames of real histories are compared with the model and judged by the final-rendering oracle.",
         level_note=COMMON_NOTE,
-        claimed=False),
+        ),
     "C08": dict(
         streams=[dict(cmd="C08"), dict(cmd="C08S", oracle_only=True)],
         technique="Lean 4 proof (lock-rank ordering of every public call's lock program implies progress) + lock-trace correspondence through the sync shim",
@@ -114,7 +114,7 @@ PROPS.update({
         technique="Lean 4 theorems about the padding/truncation function on glyph lists + output-exact differential correspondence",
         level_text="Exact width and placement of padded fields and the non-truncating case are proved for all contents; outputs of the real crate equal the model's.",
         level_note=COMMON_NOTE,
-        claimed=False),
+        ),
     "C14": dict(
         streams=[dict(cmd="C14")],
         technique="Lean 4 proof that every style accepted by the modelled builder renders without panic, for all ticks/states + accept/panic correspondence",
@@ -142,7 +142,7 @@ PROPS.update({
         level_text="last_line_count <= H is proved for every frame sequence and alignment, and the wrapped-height formula is proved equal to the rows written; screens of "
                    "the real crate on terminals from 1x1 up equal the model's.",
         level_note=COMMON_NOTE + "Glyph width <= 1 in the theorems.",
-        claimed=False),
+        ),
 })
 
 for _p, _d in PROPS.items():
